@@ -3,6 +3,33 @@
 import glob, json, os
 # what had to be added to the checks before the change was caught (empty: caught as first run)
 STRENGTHENED = {
+ 'C01-drop_leaf_shortcut': 'depth class: <template> (and alternating template/div, template/span) nests; linear-parsing tags at depth 10^5 in the quick tier',
+ 'C01-estimate_once_per_tree': 'cross-configuration route (tree built under one decorator, rendered by a configuration with another) in C01, C10 and C16',
+ 'C02-wrapped_block_min_one_column': 'min_wrap_width(0) in the C02 option mix',
+ 'C03-insert_child_sibling_list': 'general table generator: ids/classes on row groups, rows without cells, multi-row thead, tfoot, several tbody; ids in C03 documents',
+ 'C04-blank_inline_elision': 'the space between two words alone inside an inline element',
+ 'C04-zero_measure_text_skip': 'a zero-width character alone in a text node (inside an element / between comments)',
+ 'C05-table_cell_align_attribute': 'presentational attributes (align, valign, width, nowrap) on cells',
+ 'C05-trim_cell_trailing_blank_lines': 'cells whose whole content is <br>, trailing <br> in cells (a <br>-only row is a row with content)',
+ 'C06-thead_rows_hoisted': 'regular tables with two-row thead, tfoot (also written before tbody), two tbody',
+ 'C07-subrender_inherit_ws': 'lists written with line breaks between their tags inside <pre>: same markers, one per <li>',
+ 'C07-ul_indent_hoist': 'drawn custom decorators (non-ASCII / wide / empty prefixes) in C07 itself (C16 caught it before)',
+ 'C08-footnote_wrap_skips_unmeasured_chars': 'link targets with control characters, zero-width space, wide characters, long enough to be wrapped',
+ 'C09-pad_block_tag': 'pad_block_width configurations; padding may carry only the annotations of the block holding the line (or of a pending collapsed space)',
+ 'C09-zero_width_glue': 'combining marks as first character after / inside an inline element',
+ 'C10-coloured_uses_doc_css': 'documents with <style> elements and style= attributes that change text, with and without use_doc_css',
+ 'C10-dedupe_style_blocks': 'several <style> elements whose rules tie in the cascade (colour, display, white-space)',
+ 'C12-hard_wrap_full_line_assumed': 'runs of spaces ending exactly in the last column followed by a tab and a word',
+ 'C12-prune_blank_inline_containers': 'white space / <br> as the whole content of an inline or unknown element inside <pre>',
+ 'C13-link_edge_space_hoist': 'collapsible white space at the inner edges of inline elements; comments in the middle of a white-space run',
+ 'C13-cjk_source_break_join': 'words made of wide characters only (a run between two wide characters)',
+ 'C14-sup_digits_swallows_marker': 'ids on <sup>; elements whose visible content has no token character (digits) are due a marker too',
+ 'C16-empty_inline_elements_dropped': 'inline elements without rendered content in the affix documents',
+ 'C16-estimates_cached_at_parse': 'tree built under another decorator, rendered with the custom one (must equal the one-shot result)',
+ 'C17-reject_unparsed_tail': 'sheets ending in a comment (after a rule, an at-rule, a skipped rule set), leading comments',
+ 'C17-unknown_value_fast_skip': 'comments between the value tokens of unknown properties; comment bodies with ; } { quotes @',
+ 'C18-noempty_dom_children_check': 'blocks whose children are all hidden glued to inline text; reference deletion leaves a placeholder only between two text nodes',
+ 'C20-class_selector_source_slice': 'class / id names that need CSS escapes (sm:warn, w-1/2, a.b, sec:2)',
  'C06-padded_cells_skip_pad': 'table workload under pad_block_width / max_wrap_width / min_wrap_width / other decorators, paragraphs inside cells, tables inside quotes and list items; cell rectangles from the hooked allocation when the bars are inconsistent',
  'C01-sup_estimate_recursion': 'deep-nesting generator now also nests <sup> (and every other container tag)',
  'C02-footnote_wide_char_boundary': 'hrefs with wide (katakana) characters',
